@@ -356,6 +356,13 @@ def main(prop, run, level="proof", lean_module=None, search=None, argv=None):
         ctx.build()
         ctx.audit()
         common.load_impl()
+        # a change that makes the implementation allocate without bound must end as a MemoryError inside the implementation
+        # (a finding), not as the kernel killing the check: cap the address space while the implementation runs
+        import resource
+        soft0, hard0 = resource.getrlimit(resource.RLIMIT_AS)
+        cap = int(float(os.environ.get("VERIF_MEM_GB", "10")) * 2 ** 30)
+        if hard0 == resource.RLIM_INFINITY or cap < hard0:
+            resource.setrlimit(resource.RLIMIT_AS, (cap, hard0))
         if args.replay:
             import replay as _replay
             still = _replay.run(ctx, json.load(open(args.replay)))
@@ -379,7 +386,10 @@ def main(prop, run, level="proof", lean_module=None, search=None, argv=None):
             ctx.violation(f"the implementation raised {type(ex).__name__}: {str(ex)[:160]} during a step the check expects to succeed ({where[-1]})",
                           {"exception": repr(ex)[:400], "traceback": where})
         if ctx.tier == "thorough" and ctx.build_ok:
+            capped = resource.getrlimit(resource.RLIMIT_AS)
+            resource.setrlimit(resource.RLIMIT_AS, (soft0, hard0))
             ctx.leanchecker()
+            resource.setrlimit(resource.RLIMIT_AS, capped)
         code = decide(ctx, level, search)
         print(f"{prop} tier={ctx.tier} seed={seed} cases={ctx.cov['evaluations']} distinct={len(ctx.cov['distinct'])} "
               f"theorems={len(ctx.theorems)} exit={code} wall={time.time() - ctx.t0:.1f}s")
